@@ -26,12 +26,21 @@ var renderOnly = map[string]bool{"Json": true, "Yaml": true, "Render": true, "Re
 // every call to a function of the same package that takes an option slice
 // (other than the presentation-only renderers) must pass O itself.
 func ruleOptFwd(w *World, r *Report, pkg *ssa.Package, tag, elem string, scope func(fn *ssa.Function) bool, exempt map[string]string) {
+	ruleOptFwdFrom(w, r, pkg, pkg, tag, elem, scope, exempt)
+}
+
+// ruleOptFwdFrom: callers are the functions of callerPkg, callees the
+// option-taking functions of pkg (the library).
+func ruleOptFwdFrom(w *World, r *Report, callerPkg, pkg *ssa.Package, tag, elem string, scope func(fn *ssa.Function) bool, exempt map[string]string) {
 	rule := "R-OPTFWD"
 	if tag == "lib" {
 		rule += "(lib)"
 	}
+	if callerPkg != pkg {
+		rule += "(cli)"
+	}
 	optT := optionSliceType(pkg, elem)
-	for _, fn := range w.FuncsOf(pkg) {
+	for _, fn := range w.FuncsOf(callerPkg) {
 		if fn.Parent() != nil {
 			continue // closures are visited with their parent
 		}
